@@ -1310,6 +1310,46 @@ def i_real(it, args, kw):
         it.no_subst = saved
 
 
+def i_spawn(it, args, kw):
+    """Start an interpreted coroutine as a suspendable task (pyvc/tasks.py); runs until it first suspends or ends."""
+    from . import tasks
+    from .interp import SCoroutine
+    coro = args[0]
+    if not isinstance(coro, SCoroutine):
+        raise Unsupported("spawn of something that is not an interpreted coroutine")
+
+    def runner(task):
+        try:
+            return coro.run()
+        except PyRaise as e:
+            task.exc = e.value
+            return None
+
+    t = tasks.Task(runner, engine_errors=(PathAbort, Unsupported, RecursionError))
+    return t.start() if kw.get("start", True) else t
+
+
+def i_start(it, args, kw):
+    return args[0].start()
+
+
+def i_suspend(it, args, kw):
+    from . import tasks
+    t = tasks.current()
+    if t is None:
+        raise Unsupported("suspend() outside a spawned task")
+    value, e = t.suspend(args[0] if args else None)
+    if e is not None:
+        raise PyRaise(e)
+    return value
+
+
+def i_resume(it, args, kw):
+    t = args[0]
+    t.resume(args[1] if len(args) > 1 else kw.get("value"), kw.get("exc"))
+    return t
+
+
 def i_run_coro(it, args, kw):
     return it.await_value(args[0])
 
@@ -1344,7 +1384,7 @@ INTRINSICS = {
     "ghost": (lambda it, args, kw: it.ex.ghosts.setdefault(args[0], [])),
     "is_concrete": (lambda it, args, kw: not is_symbolic(args[0])),
     "sym_int": i_sym_int, "sym_bool": i_sym_bool, "sym_str": i_sym_str, "sym_float": i_sym_float,
-    "sym_choice": i_sym_choice, "assume": i_assume, "check": i_check, "lemma": i_lemma, "cover": i_cover,
+    "sym_choice": i_sym_choice, "assume": i_assume, "check": i_check, "lemma": i_lemma, "spawn": i_spawn, "start": i_start, "suspend": i_suspend, "resume": i_resume, "cover": i_cover,
     "outcome": i_outcome, "And": i_And, "Or": i_Or, "Not": i_Not, "Implies": i_Implies,
     "Ite": i_Ite, "same_float": i_same_float, "is_none": i_is_none, "opaque": i_opaque,
     "note": i_note,
